@@ -106,7 +106,7 @@ func checkC13(ci any, info *CaseInfo) string {
 		if unknown > 0 {
 			info.Class("unknown_members")
 		}
-		u, err := gotype.NewUnfolder(target.Interface())
+		u, err := newUnfolder(target.Interface())
 		if err != nil {
 			return fmt.Sprintf("NewUnfolder fails for the supported type %s: %v", c.Type, err)
 		}
